@@ -1,13 +1,13 @@
 package verifsim
 
 import (
-	"runtime/debug"
 	"crypto/sha256"
 	"encoding/hex"
 	"encoding/json"
 	"fmt"
 	"os"
 	"path/filepath"
+	"runtime/debug"
 	"sort"
 	"strings"
 	"time"
@@ -89,16 +89,16 @@ func (v *Verdict) absorb(r *RunResult) {
 }
 
 type Check struct {
-	ID        string
-	Level     string
-	Rule      string // how cases are generated and what makes one non-trivial
-	Gen       func(c *Chooser, tier string) *Plan
-	Directed  func(tier string) []*Plan // fixed prelude that forces every probe at least once
-	Oracle    func(p *Plan) *Verdict
-	Exhaustive func(tier string) []*Plan // optional: a finite sub-space enumerated completely
-	Components Components
-	Assumptions []string
-	NoShrink   bool // plans are single faults on minimal scenarios already
+	ID           string
+	Level        string
+	Rule         string // how cases are generated and what makes one non-trivial
+	Gen          func(c *Chooser, tier string) *Plan
+	Directed     func(tier string) []*Plan // fixed prelude that forces every probe at least once
+	Oracle       func(p *Plan) *Verdict
+	Exhaustive   func(tier string) []*Plan // optional: a finite sub-space enumerated completely
+	Components   Components
+	Assumptions  []string
+	NoShrink     bool // plans are single faults on minimal scenarios already
 	UnstableHash bool // byte sizes in the event log legitimately vary between executions (dynamic messages): replay compares fingerprints only
 }
 
@@ -123,16 +123,16 @@ var stdComponents = Components{
 // replay files
 
 type ReplayFile struct {
-	Property    string     `json:"property"`
-	Fingerprint string     `json:"fingerprint"`
-	VerifSeed   uint64     `json:"verif_seed"`
-	RunSeed     string     `json:"run_seed"`
-	Tier        string     `json:"tier"`
-	Plan        *Plan      `json:"plan"`
-	Violation   Violation  `json:"violation"`
-	EventHash   string     `json:"event_hash"`
-	Trace       []Event    `json:"trace,omitempty"`
-	ShrinkRuns  int        `json:"shrink_runs"`
+	Property    string    `json:"property"`
+	Fingerprint string    `json:"fingerprint"`
+	VerifSeed   uint64    `json:"verif_seed"`
+	RunSeed     string    `json:"run_seed"`
+	Tier        string    `json:"tier"`
+	Plan        *Plan     `json:"plan"`
+	Violation   Violation `json:"violation"`
+	EventHash   string    `json:"event_hash"`
+	Trace       []Event   `json:"trace,omitempty"`
+	ShrinkRuns  int       `json:"shrink_runs"`
 }
 
 func writeReplay(dir string, rf *ReplayFile) (string, error) {
@@ -215,30 +215,30 @@ func (kf *KnownFile) match(prop string, v *Violation) *KnownFinding {
 // worker loop
 
 type WorkerResult struct {
-	Property    string         `json:"property"`
-	Tier        string         `json:"tier"`
-	Seed        uint64         `json:"seed"`
-	Worker      int            `json:"worker"`
-	Evaluations int            `json:"evaluations"`
-	Worlds      int            `json:"worlds"`
-	Classes     map[string]int `json:"classes"` // distinct nontrivial (class|schedhash) -> count
-	Trivial     int            `json:"trivial"`
-	Probes      map[string]int `json:"probes"`
-	Faults      map[string]int `json:"faults"`
-	Policies    map[string]int `json:"policies"`
-	Steps       int            `json:"steps"`
-	SimMs       int64          `json:"sim_ms"`
-	AdjPairs    int            `json:"adj_pairs"`
-	WallS       float64        `json:"wall_s"`
-	Samples     []*Plan        `json:"samples"`
+	Property    string           `json:"property"`
+	Tier        string           `json:"tier"`
+	Seed        uint64           `json:"seed"`
+	Worker      int              `json:"worker"`
+	Evaluations int              `json:"evaluations"`
+	Worlds      int              `json:"worlds"`
+	Classes     map[string]int   `json:"classes"` // distinct nontrivial (class|schedhash) -> count
+	Trivial     int              `json:"trivial"`
+	Probes      map[string]int   `json:"probes"`
+	Faults      map[string]int   `json:"faults"`
+	Policies    map[string]int   `json:"policies"`
+	Steps       int              `json:"steps"`
+	SimMs       int64            `json:"sim_ms"`
+	AdjPairs    int              `json:"adj_pairs"`
+	WallS       float64          `json:"wall_s"`
+	Samples     []*Plan          `json:"samples"`
 	Violations  []FoundViolation `json:"violations"`
-	Incidental  map[string]int `json:"incidental"`
-	Exhaustive  bool           `json:"exhaustive"`
-	Error       string         `json:"error,omitempty"`
-	Rule        string         `json:"rule"`
-	Components  Components     `json:"components"`
-	Assumptions []string       `json:"assumptions"`
-	Level       string         `json:"level"`
+	Incidental  map[string]int   `json:"incidental"`
+	Exhaustive  bool             `json:"exhaustive"`
+	Error       string           `json:"error,omitempty"`
+	Rule        string           `json:"rule"`
+	Components  Components       `json:"components"`
+	Assumptions []string         `json:"assumptions"`
+	Level       string           `json:"level"`
 }
 
 type FoundViolation struct {
